@@ -79,9 +79,22 @@ impl ISourceType for NominalType {
   }
 
   fn is_the_same_type(&self, other: &Self) -> bool {
-    let NominalType { module_reference: mod_ref1, id: id1, type_arguments: targs1, .. } = self;
-    let NominalType { module_reference: mod_ref2, id: id2, type_arguments: targs2, .. } = other;
-    mod_ref1 == mod_ref2
+    let NominalType {
+      is_class_statics: statics1,
+      module_reference: mod_ref1,
+      id: id1,
+      type_arguments: targs1,
+      ..
+    } = self;
+    let NominalType {
+      is_class_statics: statics2,
+      module_reference: mod_ref2,
+      id: id2,
+      type_arguments: targs2,
+      ..
+    } = other;
+    statics1 == statics2
+      && mod_ref1 == mod_ref2
       && id1 == id2
       && targs1.len() == targs2.len()
       && targs1.iter().zip(targs2.iter()).all(|(a, b)| a.is_the_same_type(b))
